@@ -23,7 +23,7 @@ RULE = ("Pin count 1..dw+3, data width in {8,16,32}, address width sufficient or
 BUDGET = {"quick": (16, 100), "thorough": (16, 3000)}
 ESSENTIAL = ["multi_chunk_mode", "modes>=3", "stages:0", "stages:1", "stages:2", "stages:3", "setclr_11_on_set_bit",
              "setclr_set", "setclr_clr", "output_write", "input_read", "open_drain_seen", "alternate_seen",
-             "refused_addr_width"]
+             "refused_addr_width", "bus_wider_than_64", "pins>100"]
 ASSUMPTIONS = [
     "Mode/Output/SetClr are written completely or not at all (chunk-skipping writes leave unspecified bits)",
     "pin inputs before cycle 0 are low (synchroniser flops start at 0)",
@@ -35,6 +35,11 @@ NAMES = ["Mode", "Input", "Output", "SetClr"]
 def _spec(draw, tier):
     dw = draw(st.sampled_from([8, 8, 16, 32]))
     pins = draw(st.one_of(st.integers(1, dw + 3), st.integers(dw // 2 + 1, dw + 3), st.integers(1, 6)))
+    big = draw(st.integers(0, 19))
+    if big == 0:
+        dw, pins = 128, draw(st.sampled_from([33, 65, 70]))       # bus wider than 64 bits
+    elif big == 1:
+        dw, pins = draw(st.sampled_from([32, 64])), draw(st.sampled_from([101, 104, 112]))   # more than 100 pins
     return {"pins": pins, "dw": dw, "aw_slack": draw(st.sampled_from([0, 0, 0, 0, 1, 1, 2, 0, 0, -1])),
             "stages": draw(st.integers(0, 3)), "stim": draw(conforming_stimulus(max_txn=40, min_txn=12, modes=("r", "w", "w", "w", "rw"))),
             "pin_hold": draw(st.integers(1, 4)),
@@ -87,6 +92,8 @@ def check(spec, stats):
         raise Violation("C16/memory-map", f"registers overlap: {[(r.start, r.end) for r in regs]}")
     stats.label("multi_chunk_mode", 2 * pins > dw)
     stats.label(f"stages:{stages}")
+    stats.label("bus_wider_than_64", dw > 64)
+    stats.label("pins>100", pins > 100)
     stim = dict(spec["stim"])
     # bias the register choice with the weights; no chunk-skipping writes
     order = [k for k in range(4) for _ in range(spec["weights"][k] + 1)]
